@@ -72,6 +72,11 @@ def verify_function(e: Engine, qname: str) -> FunctionResult:
             total.error = total.error or r.error
         return total
     res = FunctionResult(qname)
+    # background axioms (regex lemmas, RK injectivity, str_box, ...) are added on first use and scoped to ONE function: carrying the
+    # quantified regex-lemma block into every later obligation made unrelated resolve.py obligations unstable in the large C04 run
+    e.axioms = []
+    e._axioms_done = set()
+    e._box_axiom = None
     fi = e.repo.funcs.get(qname)
     c = e.reg.contracts.get(qname)
     if fi is None:
@@ -288,6 +293,9 @@ def lemma_obligations(e: Engine) -> List[Obligation]:
     for lem in e.reg.lemmas:
         if lem["name"] not in getattr(e, "lemmas_used", set()) and not lem.get("always"):
             continue
+        e.axioms = []
+        e._axioms_done = set()
+        e._box_axiom = None
         st = State()
         st.alive = z3.Const("alive0", z3.ArraySort(Obj, z3.BoolSort()))
         env = {}
